@@ -18,6 +18,9 @@ use crate::log::{self, Ev, Kind, OKind, Verdict};
 pub struct Faults {
   /// (owner task, resource): `check` returns `Err` while armed.
   pub armed_checks: HashSet<(u32, u32)>,
+  /// Every `check` returns `Err` (used while a bottom-up build that is going to be abandoned is being told about
+  /// resources: all their dependents get scheduled in it).
+  pub fail_all_checks: bool,
   /// Panic when the task-operation counter reaches this value (C19 crash points).
   pub panic_at: Option<u64>,
   pub op_counter: u64,
@@ -202,7 +205,7 @@ impl ResourceChecker<Res> for Chk {
   fn check<RS: ResourceState<Res>>(&self, resource: &Res, state: &mut RS, stamp: &St) -> Result<Option<impl Debug>, ChkErr> {
     tick_user();
     let now = state.get_or_set_default_mut::<CellStore>().get(resource.0);
-    let armed = FAULTS.with(|f| f.borrow().armed_checks.contains(&(self.owner, resource.0)));
+    let armed = FAULTS.with(|f| { let f = f.borrow(); f.fail_all_checks || f.armed_checks.contains(&(self.owner, resource.0)) });
     if armed {
       let n = log::serial();
       log::push(Ev::Check { owner: self.owner, kind: self.kind, res: resource.0, stamp: stamp.0, now, verdict: Verdict::Err(n) });
